@@ -103,6 +103,9 @@ class Side:
 
 def construct(ctx, ref, args):
     f = ctx.fn(ref)
+    from .. import absint as _ai
+    _ai.HELPERS.clear()
+    _ai.HELPERS.update({n: h.node for n, h in f.module.functions.items() if isinstance(h.node, ast.FunctionDef) and h.cls is None})
     full = {}
     d = defaults_of(f.node)
     it = Interp(f.node, {}, f.fq)
